@@ -268,6 +268,12 @@ def gen_cases(tier: str, seed: int) -> List[Dict]:
         slots[0] = [3, -1]
         sp = {"kind": "poly", "names": ["q0", "q1", "q2", "q10"], "exps": rows, "shape": [2], "slots": slots, "mode": "raw"}
         add("text", sp, save_kwargs={}, saver="numpoly", fileobj=fo, native_only=True)
+    # arrays without elements keep shape, type and names through pickle / copy
+    for shape in [(0,), (2, 0), (0, 3)]:
+        for kind in ("pickle", "copy"):
+            sp = P(shape, nterms=2, mode="raw")
+            sp.pop("pre", None)
+            add(kind, sp)
     reps = 6 if quick else 80
     for _ in range(reps):
         for shape in shapes:
